@@ -19,6 +19,32 @@ open Drv.C06 (PSpec Inv Res decInv decRes contrib showItems merger mkPlugin hasR
 
 namespace Drv.C07
 
+def hasSub (s t : String) : Bool := (s.splitOn t).length > 1
+
+/-- what the error a request fails with must show when the handler of plugin `me` returned the
+    error value `as` for request `rid`: (status code name, description) -/
+def herrShows (as me rid : String) (ev : Nat) : String × String :=
+  let veto := s!"veto:{me}:{rid}:{ev}"
+  match as with
+  | "ctx-deadline" => ("DeadlineExceeded", "context deadline exceeded")
+  | "ctx-canceled" => ("Canceled", "context canceled")
+  | "st-deadline" => ("DeadlineExceeded", veto)
+  | "st-unavailable" => ("Unavailable", veto)
+  | "st-exhausted" => ("ResourceExhausted", veto)
+  | "st-canceled" => ("Canceled", veto)
+  | "ttrpc-closed" => ("Unknown", "ttrpc: closed")
+  | "ttrpc-server-closed" => ("Unknown", "ttrpc: server closed")
+  | "ttrpc-protocol" => ("Unknown", "protocol error")
+  | "unexpected-eof" => ("FailedPrecondition", "unexpected EOF")
+  | "eof" => ("OutOfRange", "EOF")
+  | "proto-text" => ("Unknown", "proto: cannot parse invalid wire-format data (" ++ veto ++ ")")
+  | _ => ("Unknown", veto)
+
+/-- the request failed with exactly the handler's error -/
+def carriesHandlerErr (r : Res) (as me rid : String) (ev : Nat) : Bool :=
+  let (code, desc) := herrShows as me rid ev
+  r.err == "veto" && hasSub r.errtext ("code = " ++ code ++ " desc = " ++ desc)
+
 structure RObs where
   res : Res
   log : List Inv
@@ -83,11 +109,12 @@ def judgeFault (inp obs : Json) : Except String Verdict := do
   let f ← getObj inp "fault"
   let kind ← getStr f "kind"
   let dir := getStrD f "dir"
+  let as := getStrD f "as"
   let off := getNatD f "off"
   let T := getNatD inp "timeout_ms"
   let slack := getNatD inp "slack_ms"
   let fail := getStrD obs "fail"
-  let tag := if dir == "" then kind else kind ++ ":" ++ dir
+  let tag := if dir == "" then (if as == "" then kind else kind ++ ":" ++ as) else kind ++ ":" ++ dir
   let cov0 := ["fault:" ++ tag, s!"pos:{pos}", s!"ev:{ev}", if getBoolD inp "raw" then "plugin:raw" else "plugin:stub"]
   if fail == "crashed" || fail == "blocked" then
     return { agree := false, spec := false, sig := s!"C07:{fail}:{tag}", cover := fail :: cov0, nontrivial := true,
@@ -191,14 +218,14 @@ def judgeFault (inp obs : Json) : Except String Verdict := do
       if !(healthyNames.all (names nxt).contains) then
         spf := spf <|> bad s!"{tag}:healthy-dropped" s!"following request invoked {names nxt}"
   else if kind == "herr" then
-    if flt.res.err != "veto" || flt.res.vetoBy != me || flt.res.vetoReq != "fault" then
-      spf := spf <|> bad "herr:error-lost" s!"handler error not returned: '{flt.res.err}' {flt.res.errtext}"
+    if !carriesHandlerErr flt.res as me "fault" ev then
+      spf := spf <|> bad s!"{tag}:error-lost" s!"the handler's error ({(herrShows as me "fault" ev).1}: {(herrShows as me "fault" ev).2}) was not returned: '{flt.res.err}' {flt.res.errtext}"
     if names flt != before ++ [me] then
-      spf := spf <|> bad "herr:continued" s!"invoked {names flt}, expected {before ++ [me]}"
+      spf := spf <|> bad s!"{tag}:continued" s!"invoked {names flt}, expected {before ++ [me]}"
     if !flt.res.isNil || !flt.res.items.isEmpty then
-      spf := spf <|> bad "herr:partial-result" s!"a failed request returned {flt.res.items}"
+      spf := spf <|> bad s!"{tag}:partial-result" s!"a failed request returned {flt.res.items}"
     if names nxt != sp.map (·.name) || nxt.res.err != "" || nxt.res.items != itemsOf sp "next." then
-      spf := spf <|> bad "herr:next" s!"following request: invoked {names nxt}, '{nxt.res.err}', {nxt.res.items}"
+      spf := spf <|> bad s!"{tag}:plugin-lost" s!"the vetoing plugin must stay: following request invoked {names nxt}, '{nxt.res.err}', {nxt.res.items}"
   else if isCorrupt then
     -- corrupted bytes: whatever they decode to, the other plugins must come through, and a
     -- reply the runtime could not decode must not fail the request
@@ -235,6 +262,7 @@ structure MF where
   kind : String
   dir : String
   off : Nat
+  as : String
 
 def mfClass (f : MF) : Class :=
   if f.kind == "none" || f.kind == "slow" then .ok else if f.kind == "herr" then .err else .dropped
@@ -248,11 +276,12 @@ def judgeMulti (inp obs : Json) : Except String Verdict := do
   let T := getNatD inp "timeout_ms"
   let slack := getNatD inp "slack_ms"
   let fs ← (← getArr inp "faults").mapM fun j => do
-    pure ({ kind := ← getStr j "kind", dir := getStrD j "dir", off := getNatD j "off" } : MF)
+    pure ({ kind := ← getStr j "kind", dir := getStrD j "dir", off := getNatD j "off", as := getStrD j "as" } : MF)
   let n := fs.length
   let fail := getStrD obs "fail"
   let kinds := fs.map (·.kind)
-  let cov0 := ["multi", s!"multi:n={n}", s!"ev:{ev}"] ++ (kinds.eraseDups.map ("multi:has:" ++ ·))
+  let cov0 := ["multi", s!"multi:n={n}", s!"ev:{ev}"] ++ (kinds.eraseDups.map ("multi:has:" ++ ·)) ++
+    ((fs.filter (·.kind == "herr")).map fun f => "multi:herr-as:" ++ f.as)
   let where_ := s!"faults {kinds} on plugins a.. of {n}, event {ev}"
   if fail == "crashed" || fail == "blocked" then
     return { agree := false, spec := false, sig := s!"C07:{fail}:multi", cover := fail :: cov0, nontrivial := true,
@@ -304,9 +333,9 @@ def judgeMulti (inp obs : Json) : Except String Verdict := do
   let firstErr := pf.find? fun (_, f) => f.kind == "herr"
   let okOnes := (pf.filter fun (_, f) => mfClass f == .ok).map (·.1)
   match firstErr with
-  | some (h, _) =>
+  | some (h, hf) =>
     -- a handler error: the request fails with it; everybody healthy before it was invoked, nobody behind it
-    if flt.res.err != "veto" || flt.res.vetoBy != h.name || flt.res.vetoReq != "fault" then
+    if !carriesHandlerErr flt.res hf.as h.name "fault" ev then
       spf := spf <|> bad "error-lost" s!"handler error of {h.name} not returned: '{flt.res.err}' {flt.res.errtext}"
     if !flt.res.isNil || !flt.res.items.isEmpty then spf := spf <|> bad "partial-result" s!"a failed request returned {flt.res.items}"
     let mustBefore := ((pf.filter fun (s, f) => s.id < h.id && mfClass f == .ok).map (·.1.name)) ++ [h.name]
